@@ -20,7 +20,7 @@ def gen(seed, i):
 
 
 def run(ctx):
-    scns = [TW.gen_sim(ctx.seed, i) for i in range(ctx.scale(120, 2500))]
+    scns = [TW.gen_sim(ctx.seed, i) for i in range(ctx.scale(220, 2500))]
     for s in scns:
         ctx.evaluations += 1
         ctx.skeletons.add("|".join("%s/%s" % (b["lp"]["k"], (b.get("np") or {}).get("k")) for b in s["bandits"]) +
